@@ -29,6 +29,7 @@ var (
 
 func main() {
 	flag.Parse()
+	debug.SetMaxStack(256 << 20)
 	start := time.Now()
 	tier := *flagTier
 	if tier == "" {
